@@ -2,7 +2,7 @@
    Only statements and [exact]; proofs live in Proofs/Scopes*.v.  The scope definitions the theorems are about
    (Gen/ScopeDefs.v) are regenerated from the source of /repo on every run. *)
 From PG Require Import Common.Tactics Model.ScopesBase Gen.ScopeDefs Model.Scopes
-  Proofs.ScopesStore Proofs.ScopesInstance Proofs.ScopesRestore Proofs.ScopesCongruence Proofs.ScopesEffective Proofs.ScopesMachine Proofs.ScopesFrame Proofs.ScopesExamples.
+  Proofs.ScopesStore Proofs.ScopesInstance Proofs.ScopesRestore Proofs.ScopesCongruence Proofs.ScopesEffective Proofs.ScopesMachine Proofs.ScopesFrame Proofs.ScopesSpec Proofs.ScopesExamples.
 
 (* (1) RESTORATION.  For every well-nested program over all the managers — any depth, any argument values,
    exceptions raised anywhere and caught anywhere, enters that fail — and every state s (even an ill-typed one),
@@ -92,6 +92,16 @@ Theorem C17_no_interference : forall c a s s1 sv q,
   cm_enter c a s = Some (s1, sv) -> q <> getter_of c -> observe q s1 = observe q s.
 Proof. exact enter_no_interference. Qed.
 Print Assumptions C17_no_interference.
+
+(* (1)+(2) in one statement: REFINEMENT of the documented semantics.  In the specification [aexec] a scope is lexical:
+   entering changes what the manager's getter returns, by the nesting rule [arule], for the body only — there are no
+   stores, no saved values and no exit.  The model of the code (finally blocks, popped stacks, keys deleted again)
+   produces exactly the observations and the exception behaviour of that specification, for every program (any
+   depth, exceptions anywhere, failing enters) from every well-typed state. *)
+Theorem C17_refines_lexical_spec : forall p s A, wt s -> valid_prog p = true -> refines s A ->
+  observations (exec p s) = fst (aexec p A) /\ escapes (exec p s) = snd (aexec p A).
+Proof. exact refinement. Qed.
+Print Assumptions C17_refines_lexical_spec.
 
 (* (3) ISOLATION.  Any number of threads, any programs, any event schedule: a thread whose own program uses the
    thread-local managers and getters ends with exactly the observations, exception flag and thread store it has
